@@ -1256,7 +1256,7 @@ func crashRunNested(res *Result, ev *crashEval, run *crashRun, sel []*crashImage
 		// (the order in which recovery removes them matters), flagged compactions, half deleted tables
 		limit := 8
 		if crashFlavour == "nested" {
-			limit = 24
+			limit = 20
 		}
 		type scored struct {
 			im    *crashImage
